@@ -45,11 +45,18 @@ package memdb
 //@   ensures [C18:mem-cursor-first-is-lowest-round] err == nil ==> m.pos == 0 && b == m.s.store[0] && (forall k int :: 0 <= k && k < len(m.s.store) ==> b.Round <= m.s.store[k].Round)
 //@   ensures [C18:mem-cursor-first-fails-only-when-empty] err != nil ==> len(m.s.store) == 0
 
+// standsOn(c): the round of the beacon the cursor returned last (what a client of the cursor knows about its position).
+// The cursor itself keeps an index into the ring. C11 asks that a scan skips no stored round "while new beacons are being
+// stored concurrently": Next has to move to the smallest stored round above the one it stood on, whatever happened to
+// the ring between the two calls. With only the index to go by this cannot be shown (a Put into a full ring drops the
+// oldest entry and moves every entry one place down): known finding, replayed on the real code.
+//@ ghostfield standsOn(ref) int
 //@ func (*memDBCursor).Next(m, ctx) (b, err)
 //@   props C18 C11
 //@   flags lockcheck
 //@   requires m.s != nil && memInv(m.s) && 0 <= m.pos && m.pos < 9223372036854775807
 //@   modifies m.pos
+//@   ensures [C11:mem-cursor-next-is-the-successor-of-the-round-it-stood-on] err == nil ==> b.Round > old(standsOn(m)) && (forall k int :: 0 <= k && k < len(m.s.store) && m.s.store[k].Round > old(standsOn(m)) ==> b.Round <= m.s.store[k].Round)
 //@   ensures [C18:mem-cursor-next-is-ascending-successor] err == nil ==> m.pos == old(m.pos) + 1 && m.pos < len(m.s.store) && b == m.s.store[m.pos] && (old(m.pos) < len(m.s.store) ==> m.s.store[old(m.pos)].Round < b.Round)
 //@   ensures [C18:mem-cursor-next-skips-nothing] err == nil ==> (forall k int :: 0 <= k && k < len(m.s.store) && m.s.store[old(m.pos)].Round < m.s.store[k].Round ==> b.Round <= m.s.store[k].Round)
 
